@@ -13,9 +13,16 @@ pub struct Model {
     /// character i is a carriage return
     pub is_cr: [bool; MAXK],
     pub w: [u8; MAXK],
+    /// character i is the last character of a line terminator
+    pub is_term: [bool; MAXK],
+    /// character i belongs to a line terminator (is not line content)
+    pub is_eol: [bool; MAXK],
 }
 
-pub fn model<const K: usize>(shape: &[u8; K], cls: &[u8; K]) -> Model {
+/// `lsp_eol == false`: only '\n' terminates a line ('\r' is content) — the model C22 is judged with,
+/// on texts without '\r'.  `lsp_eol == true`: "\n", "\r\n" and a lone "\r" terminate a line (LSP 3.17
+/// "End-of-line sequences") — the model C23 is judged with.
+pub fn model<const K: usize>(shape: &[u8; K], cls: &[u8; K], lsp_eol: bool) -> Model {
     let mut m = Model {
         k: K,
         len: 0,
@@ -23,6 +30,8 @@ pub fn model<const K: usize>(shape: &[u8; K], cls: &[u8; K]) -> Model {
         is_nl: [false; MAXK],
         is_cr: [false; MAXK],
         w: [0; MAXK],
+        is_term: [false; MAXK],
+        is_eol: [false; MAXK],
     };
     let mut p = 0usize;
     let mut i = 0;
@@ -36,16 +45,28 @@ pub fn model<const K: usize>(shape: &[u8; K], cls: &[u8; K]) -> Model {
     }
     m.cstart[K] = p;
     m.len = p;
+    let mut i = 0;
+    while i < K {
+        if lsp_eol {
+            let next_is_nl = i + 1 < K && m.is_nl[i + 1];
+            m.is_term[i] = m.is_nl[i] || (m.is_cr[i] && !next_is_nl);
+            m.is_eol[i] = m.is_nl[i] || m.is_cr[i];
+        } else {
+            m.is_term[i] = m.is_nl[i];
+            m.is_eol[i] = m.is_nl[i];
+        }
+        i += 1;
+    }
     m
 }
 
 impl Model {
-    /// number of lines when only '\n' terminates a line
+    /// number of lines
     pub fn line_count(&self) -> usize {
         let mut n = 1;
         let mut i = 0;
         while i < self.k {
-            if self.is_nl[i] {
+            if self.is_term[i] {
                 n += 1;
             }
             i += 1;
@@ -58,7 +79,7 @@ impl Model {
         let mut n = 0;
         let mut i = 0;
         while i < self.k {
-            if i < idx && self.is_nl[i] {
+            if i < idx && self.is_term[i] {
                 n += 1;
             }
             i += 1;
@@ -72,7 +93,7 @@ impl Model {
         let mut start = 0;
         let mut i = 0;
         while i < self.k {
-            if n < l && self.is_nl[i] {
+            if n < l && self.is_term[i] {
                 n += 1;
                 start = i + 1;
             }
@@ -81,14 +102,14 @@ impl Model {
         start
     }
 
-    /// character index of the '\n' that ends line `l`, or k for the last line
+    /// character index at which the content of line `l` ends (its terminator starts), or k
     pub fn line_end_idx(&self, l: usize) -> usize {
         let s = self.line_start_idx(l);
         let mut e = self.k;
         let mut i = self.k;
         while i > 0 {
             i -= 1;
-            if i >= s && self.is_nl[i] {
+            if i >= s && self.is_eol[i] {
                 e = i;
             }
         }
